@@ -66,7 +66,9 @@ impl BumpAllocator {
 
     /// Allocate a slice of objects of type T
     pub fn alloc_slice<T>(&self, count: usize) -> Result<NonNull<[T]>> {
-        let size = std::mem::size_of::<T>() * count;
+        let size = std::mem::size_of::<T>()
+            .checked_mul(count)
+            .ok_or_else(|| ZiporaError::out_of_memory(usize::MAX))?;
         let align = std::mem::align_of::<T>();
         let ptr = self.alloc_bytes(size, align)?;
 
@@ -95,13 +97,15 @@ impl BumpAllocator {
         loop {
             let current = self.current.load(Ordering::Acquire);
 
-            // Calculate aligned offset
-            let aligned_offset = (current + align - 1) & !(align - 1);
-            let new_offset = aligned_offset + size;
-
-            if new_offset > self.capacity {
-                return Err(ZiporaError::out_of_memory(size));
-            }
+            // Calculate aligned offset (the address is aligned, not just the offset)
+            let aligned_offset = match self.aligned_offset(current, align) {
+                Some(offset) => offset,
+                None => return Err(ZiporaError::out_of_memory(size)),
+            };
+            let new_offset = match aligned_offset.checked_add(size) {
+                Some(end) if end <= self.capacity => end,
+                _ => return Err(ZiporaError::out_of_memory(size)),
+            };
 
             // Try to atomically update the current offset
             match self.current.compare_exchange_weak(
@@ -126,6 +130,15 @@ impl BumpAllocator {
                 }
             }
         }
+    }
+
+    /// Smallest offset >= `current` whose address in the buffer is a multiple of
+    /// `align` (a power of two); `None` if the computation overflows.
+    /// The buffer itself is only 8-byte aligned, so aligning the offset is not enough.
+    fn aligned_offset(&self, current: usize, align: usize) -> Option<usize> {
+        let base = self.buffer.as_ptr() as usize;
+        let addr = base.checked_add(current)?.checked_add(align - 1)? & !(align - 1);
+        Some(addr - base)
     }
 
     /// Reset the allocator, making all memory available again
@@ -161,9 +174,13 @@ impl BumpAllocator {
     /// Note: This is a best-effort check in a concurrent context. Another thread
     /// may allocate between this check and the actual allocation.
     pub fn can_allocate(&self, size: usize, align: usize) -> bool {
+        if !align.is_power_of_two() {
+            return false;
+        }
         let current = self.current.load(Ordering::Relaxed);
-        let aligned_offset = (current + align - 1) & !(align - 1);
-        aligned_offset + size <= self.capacity
+        self.aligned_offset(current, align)
+            .and_then(|offset| offset.checked_add(size))
+            .map_or(false, |end| end <= self.capacity)
     }
 }
 
